@@ -11,18 +11,23 @@ META = {
   trusted=["heap metering by a counting global allocator, time by Instant"],
   timeout=dict(quick=600, thorough=7200)),
  "C06": dict(
+  extra_modules=["Tie"],
   rule="bounded-exhaustive: all buffers up to length L (quick 5, thorough 6) over {00,01,02,03,3F,40,80,C0,C1,'a'} at every start offset, plus random message-like buffers with label runs, pointer chains, self/forward/out-of-range pointers, reserved label types and names around the 255-byte limit; each (buffer, offset) is decoded by Name::parse (hook parse_name_at), by the Lean model and by the RFC 1035 reference decoder (spec.name); non-trivial = offset inside the buffer; distinct = distinct (request, output)",
   assumptions=STD, exhaustive=False, timeout=dict(quick=600, thorough=7200)),
  "C08": dict(
+  extra_modules=["Tie"],
   rule="exhaustive: all 65536 flag words x 4 ids through Packet::parse, all eight peek functions on all 65536 words x 2 count tuples, all 128x128 flag-set pairs through set/remove/has, all 6 opcodes x 13 rcodes x 128 flag subsets through build_bytes_vec; every case compared with the model and with RFC 1035 4.1.1 positional arithmetic; every case is non-trivial; distinct = distinct (request, output)",
   assumptions=STD, exhaustive=True, timeout=dict(quick=600, thorough=1200)),
  "C18": dict(
+  extra_modules=["Tie"],
   rule="exhaustive: all 65536 codes through TYPE::from/u16::from, CLASS, QTYPE, QCLASS try_from and back; every supported record kind (built and parsed) x every question type; every class x qclass; compared with the model and with the IANA registry extract; distinct = distinct (request, output)",
   assumptions=STD, exhaustive=True, timeout=dict(quick=600, thorough=600)),
  "C02": dict(
+  extra_modules=["Tie"],
   rule="packets built through the public constructors: one record of each of the 43 RDATA kinds alone in each section, then random packets (0..8 entries per section, all classes, cache-flush/unicast bits, boundary integers, binary labels, names up to 255 bytes, with/without OPT, every named opcode/rcode); build_bytes_vec compared byte for byte with the model, Packet::parse of the bytes compared with the model, and the intrinsic oracle parse(build(p)) == p on every field; distinct = distinct (request, output); the excluded point TXT-without-strings is run as the last case",
   assumptions=STD, timeout=dict(quick=600, thorough=7200)),
  "C03": dict(
+  extra_modules=["Tie"],
   rule="packets as C02 generated with heavy suffix sharing (label pool of 8), plus large messages straddling 16 KiB (padding records, then names repeated on both sides of offset 16383) and up to ~60 KB; build_bytes_vec_compressed compared byte for byte with the model; oracle: parse(compressed) == parse(plain) and len(compressed) <= len(plain); distinct = distinct (request, output)",
   assumptions=STD, timeout=dict(quick=600, thorough=7200)),
  "C05": dict(
@@ -42,19 +47,23 @@ META = {
   assumptions=STD + ["radix_trie 0.2.1: subtrie(key) is Some iff a node sits exactly at the key's nibble path (root, inserted key, or branching point)"],
   timeout=dict(quick=600, thorough=7200)),
  "C20": dict(
+  extra_modules=["Tie"],
   rule="real-time histories (64 threads in parallel, 8 steps of 0.5 s): add-cached with TTL {0,1,2,1000} and cache-flush, add-authoritative, remove, clear on three A records (x.local, y.x.local, z.local); queries at quarter offsets with the authoritative (exact/subdomain), cached and combined filters; every call is bracketed by Instant::now(); the model is evaluated under the two extreme readings of the measured intervals and a query is compared only when both agree (otherwise counted inconclusive); oracle: the property re-stated over the recorded history; distinct = distinct (history prefix, query, answer)",
   assumptions=STD + ["std::time::Instant is a monotone clock; the runtime clock is observed through sleeps with measured intervals"],
   timeout=dict(quick=600, thorough=7200)),
  "C09": dict(
+  extra_modules=["Tie"],
   rule="all 13 named rcodes x versions {0,1,3,127,255} x UDP sizes {0,512,1232,65535} x 3 (thorough 12) shapes (0..3 options of lengths 0,1,3,255,1000; 0..2 other additional records): build_bytes_vec compared with the model and checked clause by clause against RFC 6891 by an independent walker (exactly one OPT, root owner, TYPE 41, CLASS = size, TTL octets, option triples, ARCOUNT, header low nibble), then parsed back; plus independently encoded messages with the OPT record at every index of the additional section, in the library's TTL layout and in the RFC's, through Packet::parse; the known finding opt-ttl-byte-order covers exactly the TTL octet order",
   assumptions=STD, timeout=dict(quick=600, thorough=7200)),
  "C10": dict(
+  extra_modules=["Tie"],
   rule="for each of the 39 typed variants other than OPT: 60 (thorough 2000) field tuples (boundary and random values, shared-suffix names, opaque tails of 0..1200 bytes); the library's serialisation compared byte for byte with an independent reference encoder written from the RFCs (harness) and with the Lean RFC schema encoder (spec.rdata), under the IANA code; the reference encoding parsed by the library and compared field by field; plus encodings breaking a structural rule (LOC version, SVCB key order, NSEC window order, inner length overruns) which must be rejected, and the ISDN-without-sub-address encoding of RFC 1183 (known finding)",
   assumptions=STD, timeout=dict(quick=600, thorough=7200)),
  "C04": dict(
   rule="packets as C02 (700 quick / 6000 thorough): both vector-returning entry points walked by an independent RFC 1035 walker (counts = entries written incl. OPT once, no trailing bytes); then every writer configuration: Vec (empty / pre-filled), Cursor<Vec> at offsets 0/2/3/7 over empty, shorter and longer pre-filled storage, Cursor<&mut [u8]> and &mut [u8] of capacities {0,1,11,12,len-1,len,len+1,len+2,len/2} (every capacity 0..len+2 for every 16th packet) and at offsets 2/3/5, plain and compressed; result class, final storage and final position compared with the model and with the bytes of build_bytes_vec* spliced in; distinct = distinct (request, output)",
   assumptions=STD, timeout=dict(quick=900, thorough=7200)),
  "C07": dict(
+  extra_modules=["Tie"],
   rule="packets as C03 incl. messages crossing 16 KiB and the sweep of a multi-label name across offset 16383/16384: build_bytes_vec_compressed compared byte for byte with the model; every name site located by an independent schema-aware walker in the harness; each pointer checked: strictly backward, target <= 16383, not into the header, expansion = the intended name (from the uncompressed output), none inside no-compress RDATA (SRV NAPTR KX RRSIG NSEC IPSECKEY SVCB HTTPS), repeated compressible names written as exactly two bytes; plus write_compressed_to at stream offsets 2 and 13 must emit the same message",
   assumptions=STD, timeout=dict(quick=600, thorough=7200)),
  "C12": dict(
